@@ -919,3 +919,16 @@ def int_sites(chk, rule: str, repo: Repo, folder, modules: list[str], table: dic
     for k in stale:
         chk.analysis_error(f"{rule}: the listed instance {k} no longer exists - re-confirm the table")
     chk.expect_count(rule, n, min_sites, f"int() conversions of non-constant values in {', '.join(modules)}")
+
+
+def last_iteration_edges(g, loop_vars: set, via_nodes, stop_nodes, model=EXPLICIT):
+    """Edge predicate for find_path_edges: True for the branch of a test of the loop variable alone (`retry_count == 0`, in either polarity and
+    either branch order) from which none of `via_nodes` can be reached before `stop_nodes`: that branch is the iteration that does not go round
+    again (the last one), so a path through it is not a way round the loop."""
+    def pred(a, b, k):
+        if not (a.kind == "test" and k in ("T", "F") and loop_vars and {x.id for x in ast.walk(a.ast) if isinstance(x, ast.Name)} <= loop_vars):
+            return False
+        if b in via_nodes:
+            return False
+        return g.find_path([b], lambda n_: n_ in via_nodes, lambda n_: n_ in stop_nodes, model) is None
+    return pred
